@@ -92,7 +92,7 @@ fn gen(seed: u64, tier: Tier) -> Plan {
     let hostile = if rng.chance(1, 4) {
         Some((
             rng.range(1, n as u64 - 1) as usize,
-            rng.pick(&["wrap-two-halves", "wrap-max-plus", "wrap-three", "gt-pays-out", "nft-overspend"]).to_string(),
+            rng.pick(&["wrap-two-halves", "wrap-max-plus", "wrap-three", "gt-pays-out", "nft-overspend", "spend-at-window-edge", "spend-at-window-edge"]).to_string(),
             rng.pick(&["pool", "block"]).to_string(),
         ))
     } else {
@@ -200,6 +200,25 @@ fn hostile_tx(c: &mut Chain, kind: &str) -> Option<Transaction> {
     let tag = c.tag();
     let ts = c.tip_rec().ts + tag;
     match kind {
+        "spend-at-window-edge" => {
+            // an unspent output of block (tip - genesis period): the next block's rebroadcast pass is the one
+            // that handles that block (rebroadcasts the output, or collects it as dust), so a user transaction
+            // in that block may not spend it as well. Smallest amounts first: dust is collected without an ATR
+            // input that the per-block double-spend registry could collide with
+            let tip_id = c.tip_rec().id;
+            let gp = c.params.genesis_period;
+            let mut edge: Vec<SlipRef> = c
+                .ledger
+                .utxo
+                .values()
+                .filter(|s| s.block_id + gp == tip_id && s.amount > 0 && s.stype == saito_core::core::consensus::slip::SlipType::Normal)
+                .cloned()
+                .collect();
+            edge.sort_by_key(|s| (s.amount, s.key()));
+            let e = edge.first()?.clone();
+            let owner = c.keys.iter().find(|k| k.pk == e.pk)?.clone();
+            return Some(make_tx(&owner, &[e.clone()], &[(owner.pk, e.amount)], ts, &tag.to_le_bytes()));
+        }
         "gt-pays-out" => {
             // a golden ticket with a valid solution whose transaction also carries a value output
             let tip = c.tip_rec().hash;
@@ -239,7 +258,7 @@ impl Scenario for C02 {
     fn meta(&self) -> Meta {
         Meta {
             level: "exploration",
-            rule: "run = producer node (builds every block on its own tip with the real Block::create and validates it itself) over genesis period 3..10 for up to 30/120 blocks: 1-4 payments per block with fee classes {0, small, occasionally large}, 0-2 hop routing paths, an NFT minted (Bound-Normal-Bound group, possibly fee-paying) in about one block of five, four golden-ticket patterns (alternating, 2-of-3, streaks and gaps, random), issuance scales {1e3, 1e6, 4e13 per slip}; rebroadcasts start when the window wraps. One third of the runs add a competing fork built by a second producer that replayed the shared prefix, delivered to an observer node after the main chain (reorganisation across payouts and rebroadcasts). One quarter add a hostile transaction that pays out more than it consumes (output sum wrapping 2^64; a golden ticket with a valid solution and a value output; an NFT creation whose ordinary outputs exceed its input), through the pool or inside a block. Oracle after every accepted block, on every node, in u128: in-window non-Bound spendable value + treasury + graveyard + previous_block_unpaid + total_fees(tip) == issued; the node's in-window value equals the reference replay; no accepted user transaction has outputs > inputs. distinct_nontrivial = distinct history digests with >= 1 golden-ticket payout, >= 1 fee-paying transaction and >= 1 rebroadcast block.",
+            rule: "run = producer node (builds every block on its own tip with the real Block::create and validates it itself) over genesis period 3..10 for up to 30/120 blocks: 1-4 payments per block with fee classes {0, small, occasionally large}, 0-2 hop routing paths, an NFT minted (Bound-Normal-Bound group, possibly fee-paying) in about one block of five, four golden-ticket patterns (alternating, 2-of-3, streaks and gaps, random), issuance scales {1e3, 1e6, 4e13 per slip}; rebroadcasts start when the window wraps. One third of the runs add a competing fork built by a second producer that replayed the shared prefix, delivered to an observer node after the main chain (reorganisation across payouts and rebroadcasts). One quarter add a hostile transaction that pays out more than it consumes (output sum wrapping 2^64; a golden ticket with a valid solution and a value output; an NFT creation whose ordinary outputs exceed its input) or that spends the smallest unspent output of block (tip - genesis period), which the very next block's rebroadcast pass rebroadcasts or collects as dust, through the pool or inside a block. Oracle after every accepted block, on every node, in u128: in-window non-Bound spendable value + treasury + graveyard + previous_block_unpaid + total_fees(tip) == issued; the node's in-window value equals the reference replay; no accepted user transaction has outputs > inputs. distinct_nontrivial = distinct history digests with >= 1 golden-ticket payout, >= 1 fee-paying transaction and >= 1 rebroadcast block.",
             real: &["Block::create/generate_consensus_values/validate", "Transaction::generate_total_fees/validate", "Blockchain::add_block/check_total_supply", "Mempool::add_transaction_if_validates", "Storage (block files read back for rebroadcast)"],
             stubs: &["SimIo", "SimConfig", "vendored ahash"],
             assumptions: &["staking off in this family", "timestamps >= 2 heartbeats apart so that the routing-work requirement is zero"],
@@ -300,7 +319,7 @@ impl Scenario for C02 {
                         r.fault("wrapping_amount_tx", 1);
                         if path == "pool" {
                             if c.node.add_tx(h.clone()) {
-                                r.violate(format!("C02|accepted|{}|pool", kind), format!("a transaction that pays out more than it consumes ({}) entered the pool", kind));
+                                r.violate(format!("C02|accepted|{}|pool", kind), format!("a transaction that pays out more than it consumes, or spends an output the same block's rebroadcast pass collects ({}), entered the pool", kind));
                             }
                             c.node.mempool.transactions.clear();
                             c.node.mempool.utxo_map.clear();
@@ -328,7 +347,7 @@ impl Scenario for C02 {
                             Ok(Some(x)) if outcome_of(&x) == (AddOutcome::Added { longest: true }) => {
                                 r.violate(
                                     format!("C02|accepted|{}|block", plan.hostile.as_ref().unwrap().1),
-                                    "a block carrying a transaction that pays out more than it consumes (64-bit wrap, value-bearing golden ticket, or NFT overspend) was accepted".to_string(),
+                                    "a block carrying a transaction that pays out more than it consumes (64-bit wrap, value-bearing golden ticket, NFT overspend) or that spends an output the same block's rebroadcast pass collects was accepted".to_string(),
                                 );
                                 check_block_txs(&mut r, &rec);
                             }
